@@ -8,6 +8,10 @@
 //       difference}, Deref / From<IpBlocks> for Ipv4Blocks, Ipv6Blocks                      (set.rs, ipres.rs)
 //   RequestResourceLimit::{is_empty, apply_to}                                              (ca/provisioning.rs)
 // against the mathematical view (`in_view`) of the chain they wrap: v(x) = `sv` / `as_v` / `ip_v`.
+// The contracts that other units assume through contract links (//@stub res_sets :: ...: AsBlocks /
+// IpBlocks::{empty, verify_issued}, IpBlocks::{is_empty, contains_roa}, AsBlocks::contains_asn) are stated
+// in the set-level vocabulary of shared/resview_vocab.v.rs (`as_set` / `ip_set`, `as_wf` / `ip_wf`, ...),
+// which this unit defines from the block sequences.
 // The chain operations themselves (is_encompassed, trim, difference, contains_item, eq, from_iter) are
 // used through the contracts proved in units chain_query / chain_trim / chain_diff / chain_build
 // (modularity; see res_sets.trusted).  C01 clauses: AsBlocks/IpBlocks::verify_issued, verify_covered.
@@ -39,6 +43,10 @@ pub open spec fn view_union<T: Block>(r: Seq<T>, a: Seq<T>, b: Seq<T>) -> bool {
     forall|x: int| #![trigger in_view(r, x)] #![trigger in_view(a, x)] #![trigger in_view(b, x)]
         in_view(r, x) <==> (in_view(a, x) || in_view(b, x))
 }
+/// the set of integers denoted by a block sequence
+pub open spec fn set_of<T: Block>(s: Seq<T>) -> ISet<int> {
+    ISet::new(|x: int| in_view(s, x))
+}
 /// the closed interval [lo, hi] lies inside one block of s
 pub open spec fn one_block_covers<T: Block>(s: Seq<T>, lo: int, hi: int) -> bool {
     exists|i: int| 0 <= i < s.len() && (#[trigger] s[i]).lo() <= lo && hi <= s[i].hi()
@@ -57,6 +65,36 @@ pub proof fn lemma_empty_view<T: Block>(s: Seq<T>)
     ensures (s.len() == 0) == (forall|x: int| !in_view(s, x)),
 {
     if s.len() > 0 { assert(in_view(s, s[0].lo())); }
+}
+
+/// the denoted set of a sequence without blocks is empty
+pub broadcast proof fn lemma_set_empty<T: Block>(a: Seq<T>)
+    requires a.len() == 0,
+    ensures #[trigger] set_of(a) == ISet::<int>::empty(),
+{
+    assert(set_of(a) =~= ISet::<int>::empty());
+}
+/// view_subset is the subset relation of the denoted sets
+pub broadcast proof fn lemma_set_subset<T: Block>(a: Seq<T>, b: Seq<T>)
+    ensures #![trigger view_subset(a, b)] #![trigger set_of(a).subset_of(set_of(b))]
+        view_subset(a, b) == set_of(a).subset_of(set_of(b)),
+{
+    if view_subset(a, b) {
+        assert forall|x: int| set_of(a).contains(x) implies set_of(b).contains(x) by { assert(in_view(a, x)); }
+    }
+    if set_of(a).subset_of(set_of(b)) {
+        assert forall|x: int| in_view(a, x) implies in_view(b, x) by {
+            assert(set_of(a).contains(x));
+            assert(set_of(b).contains(x));
+        }
+    }
+}
+/// view_inter is intersection of the denoted sets
+pub broadcast proof fn lemma_set_inter<T: Block>(r: Seq<T>, a: Seq<T>, b: Seq<T>)
+    requires #[trigger] view_inter(r, a, b),
+    ensures set_of(r) == set_of(a).intersect(set_of(b)),
+{
+    assert(set_of(r) =~= set_of(a).intersect(set_of(b)));
 }
 
 /// v is the concatenation of element-wise clones of a and b
@@ -375,10 +413,30 @@ impl Block for IpBlock {
 
 /// the block sequence of an AsBlocks value
 pub open spec fn as_v(b: AsBlocks) -> Seq<AsBlock> { sv(b.0) }
-/// the claimed blocks inside AS resources are in canonical form
-pub open spec fn as_res_wf(res: AsResources) -> bool {
-    match res.0 { ResourcesChoice::Blocks(b) => canonical(as_v(b)), _ => true }
+// ---- set-level vocabulary of the linked contracts (shared/resview_vocab.v.rs), defined from as_v ----
+/// the set of AS numbers denoted
+pub open spec fn as_set(b: AsBlocks) -> ISet<int> { set_of(as_v(b)) }
+/// the chain is in canonical form
+pub open spec fn as_wf(b: AsBlocks) -> bool { canonical(as_v(b)) }
+/// number of blocks of the chain
+pub open spec fn as_len(b: AsBlocks) -> nat { as_v(b).len() }
+/// block-level refinement of the verify_issued contract (the assuming units keep it abstract): which
+/// block sequence is returned, not only which set
+pub open spec fn as_issued_blocks(issuer: AsBlocks, res: AsResources, mode: Overclaim, r: Result<AsBlocks, OverclaimedAsResources>) -> bool {
+    &&& match res.0 {
+            ResourcesChoice::Missing => r matches Ok(b) && as_v(b).len() == 0,
+            ResourcesChoice::Inherit => r matches Ok(b) && as_v(b) == as_v(issuer),
+            ResourcesChoice::Blocks(claim) => match mode {
+                Overclaim::Refuse => r.is_ok() == view_subset(as_v(claim), as_v(issuer))
+                    && (r matches Ok(b) ==> as_v(b) == as_v(claim)),
+                Overclaim::Trim => r matches Ok(b) && view_inter(as_v(b), as_v(claim), as_v(issuer)),
+            },
+        }
+    &&& (r matches Ok(b) ==> canonical(as_v(b)) && view_subset(as_v(b), as_v(issuer)))
 }
+// `as_res_wf` / `ip_res_wf` (the claimed blocks inside resources are canonical), `as_issued` / `ip_issued`
+// (the set a certificate validly receives from its issuer): shared with the assuming units
+//@include shared/resview_vocab.v.rs
 
 impl Clone for AsBlocks {
     /// rustc's expansion of `#[derive(Clone)]` on AsBlocks, written out (Verus attaches no
@@ -444,8 +502,11 @@ impl AsBlocks {
 
     //@fn src/repository/resources/asres.rs :: impl AsBlocks :: empty
     //@spec
-        ensures as_v(r) == Seq::<AsBlock>::empty(),
+        ensures as_len(r) == 0, as_wf(r), as_set(r) == ISet::<int>::empty(),
     //@/spec
+    //@ghost begin
+        broadcast use lem::lemma_set_empty;
+    //@/ghost
     //@end
 
     //@fn src/repository/resources/asres.rs :: impl AsBlocks :: is_empty
@@ -461,20 +522,18 @@ impl AsBlocks {
 
     //@fn src/repository/resources/asres.rs :: impl AsBlocks :: verify_issued
     //@spec
-        requires canonical(as_v(*self)), as_res_wf(*res),
+        requires as_wf(*self), as_res_wf(*res),
         ensures
-            match res.0 {
-                ResourcesChoice::Missing => r matches Ok(b) && as_v(b).len() == 0,
-                ResourcesChoice::Inherit => r matches Ok(b) && as_v(b) == as_v(*self),
-                ResourcesChoice::Blocks(claim) => match mode {
-                    Overclaim::Refuse => r.is_ok() == view_subset(as_v(claim), as_v(*self))
-                        && (r matches Ok(b) ==> as_v(b) == as_v(claim)),
-                    Overclaim::Trim => r matches Ok(b) && view_inter(as_v(b), as_v(claim), as_v(*self)),
-                },
-            },
-            r matches Ok(b) ==> canonical(as_v(b)) && view_subset(as_v(b), as_v(*self)),
+            // set level: exactly the resources `as_issued` prescribes (missing / inherit / refuse / trim)
+            r.is_ok() <==> as_issued(as_set(*self), *res, mode).is_some(),
+            r matches Ok(b) ==> as_wf(b) && Some(as_set(b)) == as_issued(as_set(*self), *res, mode),
+            // block level: which block sequence is returned
+            as_issued_blocks(*self, *res, mode, r),
     //@/spec
     //@sub R12 "AsBlocks(new.into())" "AsBlocks(SharedChain::from_owned(new))"
+    //@ghost begin
+        broadcast use {lem::lemma_set_empty, lem::lemma_set_subset, lem::lemma_set_inter};
+    //@/ghost
     //@end
 
     //@fn src/repository/resources/asres.rs :: impl AsBlocks :: verify_covered
@@ -494,8 +553,8 @@ impl AsBlocks {
 
     //@fn src/repository/resources/asres.rs :: impl AsBlocks :: contains_asn
     //@spec
-        requires canonical(as_v(*self)),
-        ensures r == in_view(as_v(*self), asn.0 as int),
+        requires as_wf(*self),
+        ensures r == as_set(*self).contains(asn.0 as int),
     //@/spec
     //@end
 
@@ -552,9 +611,27 @@ impl AsBlocks {
 
 /// the block sequence of an IpBlocks value
 pub open spec fn ip_v(b: IpBlocks) -> Seq<IpBlock> { sv(b.0) }
-/// the claimed blocks inside IP resources are in canonical form
-pub open spec fn ip_res_wf(res: IpResources) -> bool {
-    match res.0 { ResourcesChoice::Blocks(b) => canonical(ip_v(b)), _ => true }
+// ---- set-level vocabulary of the linked contracts (shared/resview_vocab.v.rs), defined from ip_v ----
+/// the set of addresses denoted
+pub open spec fn ip_set(b: IpBlocks) -> ISet<int> { set_of(ip_v(b)) }
+/// the chain is in canonical form
+pub open spec fn ip_wf(b: IpBlocks) -> bool { canonical(ip_v(b)) }
+/// number of blocks of the chain
+pub open spec fn ip_len(b: IpBlocks) -> nat { ip_v(b).len() }
+/// one block of the chain covers the closed interval [lo, hi]
+pub open spec fn ip_covers_range(b: IpBlocks, lo: int, hi: int) -> bool { one_block_covers(ip_v(b), lo, hi) }
+/// block-level refinement of the verify_issued contract (see as_issued_blocks)
+pub open spec fn ip_issued_blocks(issuer: IpBlocks, res: IpResources, mode: Overclaim, r: Result<IpBlocks, OverclaimedIpResources>) -> bool {
+    &&& match res.0 {
+            ResourcesChoice::Missing => r matches Ok(b) && ip_v(b).len() == 0,
+            ResourcesChoice::Inherit => r matches Ok(b) && ip_v(b) == ip_v(issuer),
+            ResourcesChoice::Blocks(claim) => match mode {
+                Overclaim::Refuse => r.is_ok() == view_subset(ip_v(claim), ip_v(issuer))
+                    && (r matches Ok(b) ==> ip_v(b) == ip_v(claim)),
+                Overclaim::Trim => r matches Ok(b) && view_inter(ip_v(b), ip_v(claim), ip_v(issuer)),
+            },
+        }
+    &&& (r matches Ok(b) ==> canonical(ip_v(b)) && view_subset(ip_v(b), ip_v(issuer)))
 }
 
 impl Clone for IpBlocks {
@@ -634,36 +711,45 @@ impl IpBlocks {
 
     //@fn src/repository/resources/ipres.rs :: impl IpBlocks :: empty
     //@spec
-        ensures ip_v(r) == Seq::<IpBlock>::empty(),
+        ensures ip_len(r) == 0, ip_wf(r), ip_set(r) == ISet::<int>::empty(),
     //@/spec
+    //@ghost begin
+        broadcast use lem::lemma_set_empty;
+    //@/ghost
     //@end
 
     //@fn src/repository/resources/ipres.rs :: impl IpBlocks :: is_empty
     //@spec
         ensures
-            r == (ip_v(*self).len() == 0),
-            blocks_ok(ip_v(*self)) ==> r == (forall|x: int| !in_view(ip_v(*self), x)),
+            r == (ip_len(*self) == 0),
+            // consequences of the first clause (lem::lemma_empty_view, a pure fact about block sequences;
+            // stated here because the assuming units keep the vocabulary abstract): a chain without blocks
+            // denotes and covers nothing, a canonical chain with a block denotes something
+            ip_wf(*self) ==> r == (forall|x: int| !ip_set(*self).contains(x)),
+            r ==> forall|lo: int, hi: int| !#[trigger] ip_covers_range(*self, lo, hi),
     //@/spec
     //@ghost begin
-        proof { if blocks_ok(ip_v(*self)) { lem::lemma_empty_view(ip_v(*self)); } }
+        proof {
+            if blocks_ok(ip_v(*self)) { lem::lemma_empty_view(ip_v(*self)); }
+            assert(forall|x: int| #![trigger ip_set(*self).contains(x)] #![trigger in_view(ip_v(*self), x)]
+                ip_set(*self).contains(x) == in_view(ip_v(*self), x));
+        }
     //@/ghost
     //@end
 
     //@fn src/repository/resources/ipres.rs :: impl IpBlocks :: verify_issued
     //@spec
-        requires canonical(ip_v(*self)), ip_res_wf(*res),
+        requires ip_wf(*self), ip_res_wf(*res),
         ensures
-            match res.0 {
-                ResourcesChoice::Missing => r matches Ok(b) && ip_v(b).len() == 0,
-                ResourcesChoice::Inherit => r matches Ok(b) && ip_v(b) == ip_v(*self),
-                ResourcesChoice::Blocks(claim) => match mode {
-                    Overclaim::Refuse => r.is_ok() == view_subset(ip_v(claim), ip_v(*self))
-                        && (r matches Ok(b) ==> ip_v(b) == ip_v(claim)),
-                    Overclaim::Trim => r matches Ok(b) && view_inter(ip_v(b), ip_v(claim), ip_v(*self)),
-                },
-            },
-            r matches Ok(b) ==> canonical(ip_v(b)) && view_subset(ip_v(b), ip_v(*self)),
+            // set level: exactly the resources `ip_issued` prescribes (missing / inherit / refuse / trim)
+            r.is_ok() <==> ip_issued(ip_set(*self), *res, mode).is_some(),
+            r matches Ok(b) ==> ip_wf(b) && Some(ip_set(b)) == ip_issued(ip_set(*self), *res, mode),
+            // block level: which block sequence is returned
+            ip_issued_blocks(*self, *res, mode, r),
     //@/spec
+    //@ghost begin
+        broadcast use {lem::lemma_set_empty, lem::lemma_set_subset, lem::lemma_set_inter};
+    //@/ghost
     //@end
 
     //@fn src/repository/resources/ipres.rs :: impl IpBlocks :: verify_covered
@@ -715,9 +801,9 @@ impl IpBlocks {
     //@sub R12 "for range in self.iter()" "for range in self.0.iter()"
     //@spec
         ensures
-            r == one_block_covers(ip_v(*self), roa_min(*addr), roa_max(*addr)),
-            canonical(ip_v(*self)) && roa_min(*addr) <= roa_max(*addr) ==>
-                r == (forall|x: int| roa_min(*addr) <= x <= roa_max(*addr) ==> in_view(ip_v(*self), x)),
+            r == ip_covers_range(*self, roa_min(*addr), roa_max(*addr)),
+            ip_wf(*self) && roa_min(*addr) <= roa_max(*addr) ==>
+                r == (forall|x: int| roa_min(*addr) <= x <= roa_max(*addr) ==> ip_set(*self).contains(x)),
     //@/spec
     //@ghost begin
         proof {
@@ -725,6 +811,8 @@ impl IpBlocks {
             if canonical(ip_v(*self)) && roa_min(*addr) <= roa_max(*addr) {
                 lem::lemma_interval_covered(ip_v(*self), roa_min(*addr), roa_max(*addr));
             }
+            assert(forall|x: int| #![trigger ip_set(*self).contains(x)] #![trigger in_view(ip_v(*self), x)]
+                ip_set(*self).contains(x) == in_view(ip_v(*self), x));
         }
     //@/ghost
     //@loop "for range in self.0.iter()" iter=it
